@@ -103,6 +103,12 @@ class Canon:
                 return ("!" if neg else "") + r(c[0])
             a, b = r(c[0]), r(c[1])
             op = n["op"]
+            if k == "BinaryOperator" and op in ("+", "-", "*", "/") and (n.get("t") or "").replace("const ", "") == "double":
+                # an integer literal operand of a double operation is converted to that double: 180 and 180.0 are one value
+                if sc(c[0]).get("k") == "IntegerLiteral" and "double" in (sc(c[1]).get("t") or ""):
+                    a = repr(float(sc(c[0]).get("v")))
+                if sc(c[1]).get("k") == "IntegerLiteral" and "double" in (sc(c[0]).get("t") or ""):
+                    b = repr(float(sc(c[1]).get("v")))
             if op in ("+", "*") and b < a:
                 a, b = b, a      # builtin + and * are commutative bit for bit (no re-association is done)
             if op == ">":
@@ -203,6 +209,17 @@ class Canon:
         self.s(F.body, 0, out)
         return out
 
+    def s_decl(self, n, ind, out):
+        pad = "  " * ind
+        for v in n.get("c") or []:
+            if v.get("k") == "VarDecl":
+                if v["r"] in self.inl or v["r"] in self.lams:
+                    continue
+                d = self.P.d(v["r"])
+                nm = self.name(v["r"], d)
+                init = self.e(v["c"][0]) if v.get("c") else ""
+                out.append("%s%s %s = %s" % (pad, abstract(norm.short_type(v.get("t", ""))).replace("const ", ""), nm, init))
+
     def s(self, n, ind, out):
         if n is None:
             return
@@ -210,8 +227,25 @@ class Canon:
         pad = "  " * ind
         c = n.get("c") or []
         if k == "CompoundStmt":
+            # a scalar declared with a literal initialiser has no effect until it is used: its place among independent
+            # statements is not behaviour, so it is emitted right in front of the first statement that mentions it
+            pending = []
             for x in c:
+                if x is None:
+                    continue
+                if x.get("k") == "DeclStmt" and len(x.get("c") or []) == 1 and x["c"][0].get("k") == "VarDecl" and x["c"][0].get("c") \
+                        and norm.is_arith(x["c"][0].get("t", "")) and sc(x["c"][0]["c"][0]) is not None \
+                        and sc(x["c"][0]["c"][0]).get("k") in ("IntegerLiteral", "FloatingLiteral", "CXXBoolLiteralExpr"):
+                    pending.append(x)
+                    continue
+                if pending:
+                    used = {y.get("r") for y in self.F.walk(x) if y.get("k") == "DeclRefExpr"}
+                    for pd in [p_ for p_ in pending if p_["c"][0]["r"] in used]:
+                        self.s_decl(pd, ind, out)
+                        pending.remove(pd)
                 self.s(x, ind, out)
+            for pd in pending:
+                self.s_decl(pd, ind, out)
         elif k == "DeclStmt":
             for v in c:
                 if v.get("k") == "VarDecl":
@@ -240,6 +274,8 @@ class Canon:
         elif k == "ForStmt":
             hdr = []
             self.s(c[0], 0, hdr)
+            # the counter of a counting loop: its unsigned type (unsigned int / size_t) does not change what the loop does
+            hdr = [re.sub(r"^(unsigned int|unsigned long|size_t|std::size_t|unsigned) ", "index ", h) for h in hdr]
             out.append("%sfor %s ; %s ; %s" % (pad, " ".join(hdr), self.e(c[1]), self.e(c[2])))
             self.s(c[3], ind + 1, out)
         elif k == "CXXForRangeStmt":
